@@ -283,7 +283,7 @@ pub(crate) fn hint_bit_pack<const CTEST: bool, const K: usize>(
     debug_assert_eq!(y_bytes.len(), omega_u + K, "Alg 20: bad output size");
     debug_assert!(h.iter().all(|r| is_in_range(r, 0, 1)), "Alg 20: h not 0/1");
     debug_assert!(
-        h.iter().all(|r| r.0.iter().filter(|&e| *e == 1).sum::<i32>() <= omega),
+        h.iter().all(|r| r.0.iter().sum::<i32>() <= omega), // h is 0/1 (above): a branch-free count
         "Alg 20: too many 1's in h"
     );
 
